@@ -222,6 +222,10 @@ def run(tier='quick', seed=0):
                     errs.append('internal/missing binder type')
                 if s.var_T is not None and r.var_T != s.var_T:
                     errs.append('binder annotation changed')
+            if r.is_svar() and s.T is None:
+                if ('?', r.name) in seen and seen[('?', r.name)] != r.T:
+                    errs.append('schematic variable %s at two types' % r.name)
+                seen.setdefault(('?', r.name), r.T)
             if r.is_var():
                 if s.T is None and r.name in ctx_vars and r.T != ctx_vars[r.name]:
                     errs.append('declared type of %s not used' % r.name)
@@ -348,6 +352,47 @@ def run(tier='quick', seed=0):
             cv = dict(ctx_vars)
             cv[other] = declared[other]
             one(sk, cv, label='renamed-declared')
+        # (g) schematic variables: some variables of the term turned into SVars, declared (context svars) or not;
+        # several unannotated occurrences of one undeclared ?v must still get ONE type
+        sv_names = set(rng.sample(sorted(ctx_vars), min(len(ctx_vars), rng.choice([1, 2])))) if ctx_vars else set()
+        if sv_names:
+            def to_svar(u):
+                if u.is_var() and u.name in sv_names:
+                    return SVar(u.name, u.T)
+                if u.is_comb():
+                    return Comb(to_svar(u.fun), to_svar(u.arg))
+                if u.is_abs():
+                    return Abs(u.var_name, u.var_T, to_svar(u.body))
+                return clone(u)
+            ts = to_svar(t)
+            sk = erase(ts, 0, rng.random(), 0)
+            declared_sv = rng.random() < 0.5
+            sk0 = clone(sk)
+            context.set_context('real', vars={k_: v_ for k_, v_ in ctx_vars.items() if k_ not in sv_names},
+                                svars=({k_: ctx_vars[k_] for k_ in sv_names} if declared_sv else {}))
+            kind, res = call(sk)
+            evals += 1
+            distinct.add('svar|' + repr(sk0))
+            if kind in ('hang', 'crash'):
+                viol('terminates' if kind == 'hang' else 'own-error', sk0, str(res), family='schematic')
+            elif kind == 'ok':
+                seen_sv = {}
+                try:
+                    res.checked_get_type()
+                except TypeCheckException:
+                    viol('result', sk0, 'result does not type-check', family='schematic', result=repr(res))
+                for (p0, s_), (p1, r_) in zip(positions(sk0), positions(res)):
+                    if r_.is_svar() and s_.T is None:
+                        if r_.name in seen_sv and seen_sv[r_.name] != r_.T:
+                            viol('result', sk0, 'schematic variable %s at two types' % r_.name, family='schematic',
+                                 result=repr(res))
+                        seen_sv.setdefault(r_.name, r_.T)
+                        if declared_sv and r_.T != ctx_vars[r_.name]:
+                            viol('result', sk0, 'declared type of ?%s not used' % r_.name, family='schematic',
+                                 result=repr(res))
+                if declared_sv and res != ts:
+                    viol('recovers', sk0, 'result differs from the original term (schematic variables declared)',
+                         family='schematic', result=repr(res), original=repr(ts))
 
     # occurs-check chains v0 = [v1], v1 = [v2], ..., v_{m-1} = [v0] (and acyclic variants), every constraint order
     import itertools
@@ -398,6 +443,11 @@ def run(tier='quick', seed=0):
         lambda: conj([eq(Var('c', None), Const('zero', NAT)), Var('c', None)]),
         lambda: Comb(Var('c', None), Var('c', None)),
         lambda: conj([eq(Var('x', INT), Const('zero', None)), eq(Var('x', None), Const('zero', None))]),
+    ]
+    clash += [
+        lambda: conj([eq(SVar('c', None), Const('zero', NAT)), SVar('c', None)]),
+        lambda: conj([eq(Comb(SVar('f', None), Var('x', None)), Var('x', None)), Comb(SVar('f', None), Var('p', None))]),
+        lambda: Comb(SVar('c', None), SVar('c', None)),
     ]
     for mk in clash:
         for ctx_vars in ({}, {'x': NAT}):
